@@ -1,7 +1,7 @@
 #!/bin/bash
 # seedapply.sh <seeded-dir>: applies the patch in the scratch worktree and runs the checks in $PROPS (no demo run)
 set -u
-D=$(realpath "$1"); W=/var/tmp/frp-mut
+D=$(realpath "$1"); W=${W:-/var/tmp/frp-mut}
 PROPS=${PROPS:-$(echo "$D" | grep -o "C[0-9][0-9]" | tail -1)}
 git -C $W checkout -q -- . ; git -C $W clean -fdq; git -C $W checkout -q --detach $(git -C /repo rev-parse HEAD)
 cp /verif/known_findings.txt /tmp/ev-mut/ 2>/dev/null
